@@ -1,7 +1,9 @@
 import PsV.Model.Lifecycle
 import PsV.Driver.Common
-/-! Driver for C20: replays operation histories on `PsV.Lifecycle.step Cfg.repaired` and prints, per
-    operation, result / allocator events / abstract state of every slot / ledger totals. -/
+/-! Driver for C20: replays operation histories on `PsV.Lifecycle.step c` and prints, per operation,
+    result / allocator events / abstract state of every slot / ledger totals.  `c` is `Cfg.head` (the
+    library as it is in /repo) unless the input starts with the line `CFG repaired` (a tree which also has
+    the proposed fixes C20-13 … C20-15). -/
 namespace PsV.Driver.C20
 open PsV.Lifecycle PsV.Driver
 
@@ -47,9 +49,10 @@ def parseOp (tag : String) (a : List Nat) : Option Op :=
   | "X", [i, j] => some (.moveConstruct i j)
   | "A", [i, j] => some (.moveAssign i j)
   | "E", [i, j] => some (.compare i j)
-  | "O", [i] => some (.writeFits i)
-  | "Q", [i] => some (.writeFits i)
+  | "O", [i, ok] => some (.writeFits i (ok != 0))
+  | "Q", [i, ok] => some (.writeFits i (ok != 0))
   | "D", [i] => some (.destroy i)
+  | "Y", i :: order :: _ :: srcs => some (.stack i srcs order)
   | _, _ => none
 
 def showEvs (evs : List Ev) : String :=
@@ -62,7 +65,7 @@ def b (x : Bool) : String := if x then "1" else "0"
 
 def showTab : Option Tab → String
   | none => "-"
-  | some t => s!"{t.ndim},{t.aux.length},{if t.core then "y" else "n"},{b t.periods},{b t.auxArr}"
+  | some t => s!"{t.ndim},{t.aux.length},{if t.core then "y" else "n"},{b t.periods},{b t.auxArr},{b (t.core && !t.noExtents)}"
 
 def showState (w : World) (nslots : Nat) : String :=
   " ".intercalate ((List.range nslots).map fun i => showTab (w.get i))
@@ -76,30 +79,37 @@ def totals (w : World) : String :=
 
 def nslots : Nat := 3
 
-partial def loop (h out : IO.FS.Stream) (w : World) : IO Unit := do
+/-- self-check printed with every line: the invariant proved for the configuration that is run
+    (`C20_ownership_inv` … for `Cfg.repaired`, `C20_head_invX` for `Cfg.head`) -/
+def selfCheck (c : Cfg) (w : World) : Bool := if c.stackExtents then w.okB else w.okXB
+
+partial def loop (h out : IO.FS.Stream) (c : Cfg) (w : World) : IO Unit := do
   let line ← h.getLine
   if line.isEmpty then return ()
   match words line with
+  | ["CFG", name] =>
+    out.putStrLn "CFG"
+    loop h out (if name = "repaired" then Cfg.repaired else if name = "asIs" then Cfg.asIs else Cfg.head) w
   | "S" :: _ :: f :: _ =>
     let fail := f.toNat?.getD 0
     out.putStrLn "S"
-    loop h out (World.init (if fail = 0 then none else some (fail - 1)))
+    loop h out c (World.init (if fail = 0 then none else some (fail - 1)))
   | ["Z"] =>
     let ops := (List.range nslots).map Op.destroy
-    let evs := (ops.foldl (fun (acc : World × List Ev) op => let r := step Cfg.repaired acc.1 op; (r.w, acc.2 ++ r.evs)) (w, [])).2
-    let w' := destroyAll Cfg.repaired { w with objs := w.objs ++ List.replicate (nslots - w.objs.length) none }
-    out.putStrLn s!"ok | {showEvs evs} | {showState w' nslots} | {totals w'} | {b w'.okB}"
-    loop h out w'
+    let evs := (ops.foldl (fun (acc : World × List Ev) op => let r := step c acc.1 op; (r.w, acc.2 ++ r.evs)) (w, [])).2
+    let w' := destroyAll c { w with objs := w.objs ++ List.replicate (nslots - w.objs.length) none }
+    out.putStrLn s!"ok | {showEvs evs} | {showState w' nslots} | {totals w'} | {b (selfCheck c w')}"
+    loop h out c w'
   | tag :: rest =>
     match (nats rest).bind (parseOp tag) with
-    | none => out.putStrLn "bad-input"; loop h out w
+    | none => out.putStrLn "bad-input"; loop h out c w
     | some op =>
-      let r := step Cfg.repaired w op
-      out.putStrLn s!"{if r.done then showRes r.res else "skip"} | {showEvs r.evs} | {showState r.w nslots} | {totals r.w} | {b r.w.okB}"
-      loop h out r.w
-  | [] => out.putStrLn "bad-input"; loop h out w
+      let r := step c w op
+      out.putStrLn s!"{if r.done then showRes r.res else "skip"} | {showEvs r.evs} | {showState r.w nslots} | {totals r.w} | {b (selfCheck c r.w)}"
+      loop h out c r.w
+  | [] => out.putStrLn "bad-input"; loop h out c w
 
 def run : IO Unit := do
-  loop (← IO.getStdin) (← IO.getStdout) (World.init none)
+  loop (← IO.getStdin) (← IO.getStdout) Cfg.head (World.init none)
 
 end PsV.Driver.C20
